@@ -517,4 +517,9 @@ WitRepeated   == Wit(last.op = "Create" /\ \E i, j \in 1..Len(env.toks) : i < j 
 WitEmitAfterMerge == Wit(last.op = "Emit" /\ provs[last.p].res > 2 /\ Len(provs) >= 2)
 WitStaleThenRead == Wit(last.op = "Read" /\ last.e = "erange" /\ nsteps >= 2)
 WitDeadMachine == Wit(dead)
+\* an out-of-range uint (strtoull sets ERANGE itself) directly followed by a valid one, errno untouched in between
+WitRangeThenAsis == Wit(Len(hist) >= 3 /\ hist[Len(hist) - 1].op = "Read" /\ hist[Len(hist) - 1].r = "uint"
+                        /\ hist[Len(hist) - 1].s.body = "d10" /\ Plain(hist[Len(hist) - 1].s)
+                        /\ hist[Len(hist)].op = "Read" /\ hist[Len(hist)].errno = "asis"
+                        /\ hist[Len(hist)].r \in {"uint", "float"} /\ Documented(hist[Len(hist)].r, hist[Len(hist)].s))
 =============================================================================
